@@ -49,6 +49,21 @@ func (c udpCase) ops() []udpx.Op {
 	case "shutdown":
 		first = []udpx.Op{open, {K: "S", C: 1, Key: 1, T: 0, N: 5}, {K: "R", C: 0, T: 1, N: 5}}
 		return append(first, udpx.Op{K: "Q"})
+	case "idle":
+		// whatever the first datagrams were (A: a datagram whose write to the target fails / an ordinary
+		// one / a DNS query / a reply that cannot be relayed), once every client has been silent for
+		// longer than the timeout nothing of them remains, with the listener still open
+		switch c.A {
+		case 0:
+			first = []udpx.Op{{K: "S", C: 0, Key: 0, N: 9, Mod: "raw:93.184.216.34:0"}}
+		case 1:
+			first = []udpx.Op{open}
+		case 2:
+			first = []udpx.Op{{K: "S", C: 0, Key: 0, T: 0, N: 10}}
+		case 3:
+			first = []udpx.Op{open, {K: "R", C: 0, T: 1, N: 65507}}
+		}
+		return append(append(first, follow...), udpx.Op{K: "A", D: 5*time.Minute + time.Second})
 	}
 	return append(first, follow...)
 }
@@ -83,7 +98,24 @@ func udpScenario(c udpCase) *engine.Scenario {
 			add("handle-not-returned", "PacketHandler.Handle did not return")
 		}
 		obs := ""
-		if c.Kind != "shutdown" && !(c.Kind == "socket-fail" && c.FailSocket >= 3) {
+		if c.Kind == "idle" {
+			open := map[string]bool{}
+			for _, st := range tr.Steps {
+				if st.Op.K == "END" {
+					break
+				}
+				for _, a := range st.NewSocks {
+					open[a] = true
+				}
+				for _, a := range st.ClosedSocks {
+					delete(open, a)
+				}
+			}
+			if len(open) > 0 {
+				add("socket-leak{listener-open}", "every client has been silent for longer than the timeout and the listener is still open: %d outbound socket(s) of their associations are still there", len(open))
+			}
+		}
+		if c.Kind != "shutdown" && c.Kind != "idle" && !(c.Kind == "socket-fail" && c.FailSocket >= 3) {
 			// the follower's exchange must have worked
 			n := len(tr.Steps)
 			s, r := tr.Steps[n-3], tr.Steps[n-2]
@@ -125,6 +157,9 @@ func udpCases() []udpCase {
 		out = append(out, udpCase{Kind: "socket-fail", FailSocket: f})
 	}
 	out = append(out, udpCase{Kind: "shutdown"})
+	for a := 0; a < 4; a++ {
+		out = append(out, udpCase{Kind: "idle", A: a})
+	}
 	return out
 }
 
